@@ -28,6 +28,7 @@ var rawFuncs = map[string]struct {
 	"s_base": {"s_base", SInt}, "s_off": {"s_off", SInt}, "s_len": {"s_len", SInt}, "s_cap": {"s_cap", SInt},
 	"arr2str": {"arr2str", SStr},
 	"rv_valid": {"rv_valid", SBool}, "rv_val": {"rv_val", SVal}, "rv_iface": {"rv_iface", SBool}, "mk_rv": {"mk_rv", "RV"},
+	"runes2str": {"runes2str", SStr}, "str_runes": {"str_runes", "(Array Int Int)"},
 	"tmd": {"tmd", SStr}, "fsread": {"fsread", SStr},
 	"rv_deepnan": {"rv_deepnan", SBool},
 	"rvkind": {"rvkind", SInt}, "tconvertible": {"tconvertible", SBool},
